@@ -134,13 +134,16 @@ class JobControl:
         return result
 
     def stop_current(self) -> bool:
-        if self._active_agent is not None and self._active_agent.is_running():
-            if self._acquire_lock():
-                try:
-                    self._active_agent.request_stop()
-                finally:
-                    self._release_lock()
-                return True
+        # The active job is looked at and stopped under the lock: it can end,
+        # and be replaced or cleared, at any moment otherwise.
+        if self._acquire_lock():
+            try:
+                agent = self._active_agent
+                if agent is not None and agent.is_running():
+                    agent.request_stop()
+                    return True
+            finally:
+                self._release_lock()
         return False
 
     def has_jobs(self) -> bool:
